@@ -80,13 +80,43 @@ package agent
 // check) and the info block exists.
 //@ spec wfAgent(a) = a != nil && a.Info != nil && len(a.Encryption.AESKey) == 32 && len(a.Encryption.AESIv) == 16
 
+// C02 (framing): what BuildPayloadMessage puts on the wire, append by append.
+//  - every argument is encoded by its type: 32-bit (int, int32, uint32, bool) / 64-bit / 16-bit
+//    little endian, one byte, or [length:4 LE][bytes] for strings (NUL-terminated, the NUL counted) and byte slices;
+//  - every task is [command:4 LE][request id:4 LE][body length:4 LE][body], the header fields directly
+//    before the body in that order;
+//  - a non-empty body is appended only as the result of encrypting the whole plain body with the
+//    session key and IV (the IV starts afresh for every task); no plain body byte reaches the package.
+//@ spec val32(x) = ite(typeis(x, int), unboxed(x, int), ite(typeis(x, int32), unboxed(x, int32), ite(typeis(x, uint32), unboxed(x, uint32), ite(typeis(x, bool) && unboxed(x, bool), 1, 0))))
+//@ spec val64(x) = ite(typeis(x, int64), unboxed(x, int64), unboxed(x, uint64))
+//@ spec val16(x) = ite(typeis(x, int16), unboxed(x, int16), unboxed(x, uint16))
+//@ spec apart(a) = !samearray(a, RequestID) && !samearray(a, DataCommandID) && !samearray(a, PayloadPackageSize)
+//@ spec tail4(s, v) = len(s) >= 4 && s[len(s)-4:] == le32(v)
 //@ func BuildPayloadMessage(Jobs []Job, AesKey []byte, AesIv []byte) (r []byte)
 //@   requires iv: len(AesIv) == 16 || (len(AesKey) != 16 && len(AesKey) != 24 && len(AesKey) != 32)
 //@   ensures fresh: len(r) == 0 || fresh(arrayof(r))
+//@   guard-call forms:  "append" argis(1, "integer32") || argis(1, "integer64") || argis(1, "integer16") || argis(1, "size") || argis(1, "singlebyte") || argis(1, "boolean") || argis(1, "DataCommandID") || argis(1, "RequestID") || argis(1, "PayloadPackageSize") || argis(1, "DataPayload") || (argis(0, "DataPayload") && (typeis(job.Data[i], string) || typeis(job.Data[i], []byte)))
+//@   guard-call enc32:  "append" (argis(1, "integer32") || argis(1, "boolean")) ==> (argis(0, "DataPayload") && arg(1) == le32(val32(job.Data[i])))
+//@   guard-call enc64:  "append" argis(1, "integer64") ==> (argis(0, "DataPayload") && arg(1) == le64(val64(job.Data[i])))
+//@   guard-call enc16:  "append" argis(1, "integer16") ==> (argis(0, "DataPayload") && arg(1) == le16(val16(job.Data[i])))
+//@   guard-call enc8:   "append" argis(1, "singlebyte") ==> (argis(0, "DataPayload") && len(arg(1)) == 1 && arg(1)[0] == unboxed(job.Data[i], byte))
+//@   guard-call lenpfx: "append" argis(1, "size") ==> (argis(0, "DataPayload") && ((inscope("str") && typeis(job.Data[i], string) && arg(1) == le32(strlen(str)) && suffixof("\x00", str) && (str == unboxed(job.Data[i], string) || str == unboxed(job.Data[i], string) + "\x00")) || (typeis(job.Data[i], []byte) && arg(1) == le32(len(unboxed(job.Data[i], []byte))))))
+//@   guard-call raw:    "append" (argis(0, "DataPayload") && !argis(1, "integer32") && !argis(1, "integer64") && !argis(1, "integer16") && !argis(1, "size") && !argis(1, "singlebyte") && !argis(1, "boolean")) ==> ((inscope("str") && typeis(job.Data[i], string) && len(arg(1)) == strlen(str) && tail4(arg(0), strlen(str))) || (typeis(job.Data[i], []byte) && sameslice(arg(1), unboxed(job.Data[i], []byte)) && tail4(arg(0), len(arg(1)))))
+//@   guard-call hcmd:   "append" argis(1, "DataCommandID") ==> (argis(0, "PayloadPackage") && arg(1) == le32(job.Command))
+//@   guard-call hreq:   "append" argis(1, "RequestID") ==> (argis(0, "PayloadPackage") && arg(1) == le32(job.RequestID) && tail4(arg(0), job.Command))
+//@   guard-call hlen:   "append" argis(1, "PayloadPackageSize") ==> (argis(0, "PayloadPackage") && arg(1) == le32(len(DataPayload)) && tail4(arg(0), job.RequestID))
+//@   guard-call body:   "append" argis(1, "DataPayload") ==> (argis(0, "PayloadPackage") && sameslice(arg(1), lastresult(XCryptBytesAES256)) && (len(AesKey) == 32 ==> tail4(arg(0), len(arg(1)))))
+//@   guard-call crypt:  "XCryptBytesAES256" argis(0, "DataPayload") && sameslice(arg(1), AesKey) && sameslice(arg(2), AesIv) && len(arg(0)) > 0
 //@   loop "for _, job := range Jobs"
 //@     invariant own: (cap(DataPayload) == 0 || fresh(arrayof(DataPayload))) && (cap(PayloadPackage) == 0 || fresh(arrayof(PayloadPackage)))
+//@     invariant apartP: apart(PayloadPackage)
+//@     invariant apartD: apart(DataPayload)
+//@     invariant apartPD: cap(PayloadPackage) == 0 || !samearray(PayloadPackage, DataPayload)
 //@   loop "for i := range job.Data"
 //@     invariant own: (cap(DataPayload) == 0 || fresh(arrayof(DataPayload))) && (cap(PayloadPackage) == 0 || fresh(arrayof(PayloadPackage)))
+//@     invariant apartP: apart(PayloadPackage)
+//@     invariant apartD: apart(DataPayload)
+//@     invariant apartPD: cap(PayloadPackage) == 0 || !samearray(PayloadPackage, DataPayload)
 
 //@ func ParseHeader(data []byte) (h Header, err error)
 //@   ensures ok: err == nil ==> h.Data != nil
